@@ -30,6 +30,31 @@ def translator_obligations(c, info):
             len(info["rows"]), len(info["members"]), len(info["specs"])))
 
 
+def prove_with_gen(c, d, mods):
+    """regenerate RV/Gen/C05Descriptors.lean and build the property modules.  The generated file is shared with
+    concurrent runs of c05 / c17 against other source trees (seeded-bug runs): if it was rewritten by somebody else
+    between our generation and the end of our build, the build is repeated (the proof must be about OUR tree)."""
+    gen = os.path.join(LEAN, "RV", "Gen", "C05Descriptors.lean")
+    for attempt in range(4):
+        info = extract_c05.extract(d, REPO)
+        mine = extract_c05.render(info)
+        nb, ob, di = len(c.broken), c.cov["obligations"], c.cov["discharged"]
+        ok = c.prove(mods)
+        try:
+            same = open(gen).read() == mine
+        except OSError:
+            same = False
+        if same:
+            translator_obligations(c, info)
+            return info, ok
+        c.log("generated table was rewritten by a concurrent run; rebuilding (attempt %d)" % (attempt + 2))
+        del c.broken[nb:]
+        c.cov["obligations"], c.cov["discharged"] = ob, di
+        time.sleep(2 + 3 * attempt)
+    translator_obligations(c, info)
+    return info, ok
+
+
 def uncovered_members(info):
     per = persisted_paths(info)
     return [m["path"] for m in info["members"] if m["path"] not in per and m["path"] not in info["transient"]]
@@ -944,6 +969,20 @@ def run_cases(c, S, cases, nproc=8, chunk=12):
         else:
             cfg, path, k = sub[0][0], sub[0][1], sub[0][2]
             key = "crash:" + cfg["integrator"]
+            if any(op.startswith("switchraw:") for op in cfg.get("pre", []) + cfg.get("post", [])):
+                # C05-N11 (stale BS ode of the wrong length after a raw integrator switch + add/remove corrupts memory)
+                # ONLY if the same history with reset_integrator() after each assignment runs through
+                cfg2 = dict(cfg)
+                cfg2["pre"] = [op.replace("switchraw:", "switch:") for op in cfg.get("pre", [])]
+                cfg2["post"] = [op.replace("switchraw:", "switch:") for op in cfg.get("post", [])]
+
+                def rerun(_):
+                    W = Search(Rec(c.seed, c.thorough), rb, info, R)
+                    (W.twin_one if (len(sub[0]) > 3 and sub[0][3] == "twin") else W.one)(cfg2, path, k)
+                    shutil.rmtree(W.tmp, ignore_errors=True)
+                    return True
+                if forked(rerun, None)[0]:
+                    key = "C05-N11:integrator-switched-without-reset"
             if uses_tree(cfg):
                 # C05-N5 is ONLY: the source holds a NaN-flagged / out-of-box particle at the save point (F17 state)
                 try:
@@ -1010,9 +1049,7 @@ def history_cases(c, cfgs):
 def run(c):
     d = build()
     rb = use_scratch_rebound(d)
-    info = extract_c05.extract(d, REPO)
-    translator_obligations(c, info)
-    ok = c.prove(["RV.Props.C05"])
+    info, ok = prove_with_gen(c, d, ["RV.Props.C05"])
     exe = lean_exe("drv_c05")
     R = Real(rb, info)
     S = Search(c, rb, info, R)
